@@ -68,6 +68,11 @@ func (s *Selector) selectAllAncestorsForBuild(
 				depChain[0], depChainStr, config.Global.GetPlatform())
 		}
 
+		if ancestor.GetIsSelected() {
+			// Already selected, which means its ancestors have been (or are being) selected as well.
+			// Without this, every path through the graph would be walked separately.
+			continue
+		}
 		ancestor.Select()
 		if err := s.selectAllAncestorsForBuild(graph, nextChain, ancestor); err != nil {
 			return err
